@@ -1,5 +1,6 @@
 // @mode lint line
 // @mode linttoks line run_toks
+// @mode diagranges line run_ranges
 //! mode `lint`: `lint <escaped text>` → the REAL diagnostics request on a one-file workspace:
 //!   write the text to `.cache/ws/<unique>/aLintCase.god`, `ProjectManager::new` + `index_files`,
 //!   `generate_document_diagnostic_report(uri)` twice (first = computed, second = the cached /
@@ -141,6 +142,38 @@ pub fn run(words: &[&str]) -> String {
     let a = canon(&first[nparse..]);
     let same = canon(&first) == canon(&second);
     format!("L={} P={} I={}", a.join(","), nparse, if same { "same" } else { "diff" })
+}
+
+/// `diagranges <escaped text>` → EVERY item of the real diagnostics response (lexer, parser and analyzer items, in response
+/// order) as `sev|l:c-l:c`, then `N=<#lexer+parser diagnostics of the parsed document>`: the ranges the client receives (C08)
+pub fn run_ranges(words: &[&str]) -> String {
+    let text = if words.len() > 1 { unescape(words[1]) } else { String::new() };
+    let dir = cache_dir().join(format!("{}-{}", std::process::id(), COUNTER.fetch_add(1, Ordering::SeqCst)));
+    std::fs::create_dir_all(&dir).unwrap();
+    let scratch = Scratch(dir.clone());
+    let file = dir.join("aLintCase.god");
+    std::fs::write(&file, text.as_bytes()).unwrap();
+    let root = Url::from_file_path(std::fs::canonicalize(&dir).unwrap()).unwrap();
+    let uri = Url::from_file_path(std::fs::canonicalize(&file).unwrap()).unwrap();
+    let mut pm = match ProjectManager::new(Some(root), Box::new(NullLogger)) {
+        Ok(p) => p,
+        Err(_) => return "err(new)".into(),
+    };
+    pm.index_files();
+    let nparse = match pm.doc_service.get_parsed_document(&uri, true) {
+        Ok(d) => d.lock().unwrap().get_parser_diagnostics().len(),
+        Err(_) => return "err(parse)".into(),
+    };
+    let items = match pm.generate_document_diagnostic_report(&uri) {
+        Ok(r) => r.full_document_diagnostic_report.items.clone(),
+        Err(_) => return "err(report)".into(),
+    };
+    drop(scratch);
+    let v: Vec<String> = items
+        .iter()
+        .map(|d| format!("{}|{}:{}-{}:{}", sev_str(&d.severity), d.range.start.line, d.range.start.character, d.range.end.line, d.range.end.character))
+        .collect();
+    format!("R={} N={}", v.join(","), nparse)
 }
 
 /// `linttoks <tokens…>`
